@@ -611,6 +611,7 @@ class Explorer:
         self._eff: dict[int, Effects] = {}
         self._gen: dict[int, list] = {}
         self._drf: dict[int, list] = {}
+        self._emp: dict = {}
         self._atom: dict[int, tuple] = {}
         self._ev: dict[int, list] = {}
 
@@ -628,6 +629,38 @@ class Explorer:
                 e.names.add(node.node.name)
             self._eff[node.id] = e
         return e
+
+    def _empty_on_raise(self, node: Node, cls: str):
+        """the container that must be empty if this statement raised `cls`: only when the statement has exactly one operation that can
+        raise a lookup error, and that operation takes from the container unconditionally"""
+        key = (node.id, cls)
+        if key in self._emp:
+            return self._emp[key]
+        res = None
+        n = node.node
+        if isinstance(n, ast.AST):
+            cands = []
+            risky = 0
+            for x in ast.walk(n):
+                if isinstance(x, ast.Subscript) and isinstance(x.ctx, ast.Load):
+                    risky += 1
+                    if isinstance(x.slice, ast.Constant) and x.slice.value in (0, -1) and cls in ("IndexError", "LookupError"):
+                        cands.append(x.value)
+                elif isinstance(x, ast.Call) and isinstance(x.func, ast.Attribute):
+                    m = x.func.attr
+                    if m in ("popleft", "pop", "popitem", "remove", "index") or m.startswith("__"):
+                        risky += 1
+                    if m == "popleft" and not x.args and cls in ("IndexError", "LookupError"):
+                        cands.append(x.func.value)
+                    elif m == "pop" and (not x.args or (len(x.args) == 1 and isinstance(x.args[0], ast.Constant) and x.args[0].value in (0, -1))) \
+                            and not x.keywords and cls in ("IndexError", "LookupError"):
+                        cands.append(x.func.value)
+                    elif m == "popitem" and cls in ("KeyError", "LookupError"):
+                        cands.append(x.func.value)
+            if len(cands) == 1 and risky == 1 and isinstance(cands[0], (ast.Name, ast.Attribute)) and not contains(cands[0], (ast.Call, ast.Subscript)):
+                res = ast.unparse(subst(cands[0], self.aliases))
+        self._emp[key] = res
+        return res
 
     def _deref(self, node: Node) -> list:
         d = self._drf.get(node.id)
@@ -773,6 +806,13 @@ class Explorer:
                             f2 = f2c if f2c is not None else f2
                 if is_exc:
                     kind, _, cls = label2.partition(":")
+                    if kind == "exc" and cls in ("IndexError", "KeyError", "LookupError") and node.kind in ("stmt", "return", "test"):
+                        # EAFP emptiness: `q.popleft()` / `q.pop()` / `q.popitem(...)` / `q[0]` raising means q is empty
+                        em = self._empty_on_raise(node, cls)
+                        if em:
+                            f2c = _close(set(f2) | {(em, False)})
+                            if f2c is not None:
+                                f2 = f2c
                     cur = next((v for (k, v) in f2 if k == EXC), None)
                     if kind == "reraise":
                         if cur is not None and cur != cls:
